@@ -1,0 +1,13 @@
+//go:build verif
+
+package prophotorgb
+
+// VerifHook, when set by the verification harness, is called at the marked
+// points of lazy table construction (schedule gates / event tracing).
+var VerifHook func(point string)
+
+func verifAt(point string) {
+	if h := VerifHook; h != nil {
+		h(point)
+	}
+}
